@@ -277,3 +277,20 @@ Proof.
     + subst level. apply not_strict_password; reflexivity.
     + destruct K as [_ [K _]]. exfalso. apply K. reflexivity.
 Qed.
+
+(* ---- the behaviour before the repairs made while building this check *)
+Lemma old_refuted :
+  (exists st q c, certgen_old no_expand false st 0%Z true q = Refused c /\ c < 400) /\
+  (exists st q c, certgen_old no_expand true st 0%Z true q = Refused c /\ c < 400).
+Proof.
+  split.
+  - exists (case_server false [sU2F]), (case_req (nth 68 shapes default_shape) 0 0), 0.
+    vm_compute. split; reflexivity.
+  - exists (case_server false [sU2F]), (case_req (nth 6 shapes default_shape) 0 0), 200.
+    vm_compute. split; reflexivity.
+Qed.
+
+Lemma old_krb_refuted : exists realm user, krb_san_old realm user <> Some (realm, user).
+Proof.
+  exists [69;88;65;77;80;76;69;46;67;79;77], (repeat 117 100). vm_compute. discriminate.
+Qed.
